@@ -995,6 +995,9 @@ func (cpu *CPU) Step() (int, bool) {
 		log.Println(fmt.Sprintf("unknown addressing mode PC $%02x:%04x", cpu.RK, cpu.PC))
 	}
 
+	// indexed effective addresses wrap on the 24-bit address bus
+	ea &= 0x00ffffff
+
 	// cycles adjust calculation
 	// M,X and DL here      - here
 	// X and Page crossing  - here
